@@ -116,6 +116,27 @@ def classes_of(reg, fcs):
     return out
 
 
+def assumed_facts(reg, pid):
+    out = []
+    for key, fc in reg.funcs.items():
+        if pid not in fc.props or fc.assumed or not fc.verify:
+            continue
+        items = [("def", cl.text) for cl in fc.defs]
+        for o, lc in fc.loops.items():
+            items += [(f"loop{o}-lemma", lm if isinstance(lm, str) else str(lm))
+                      for lm in lc.lemmas]
+        items += [("assumed-clause", cl.text) for cl in fc.ensures
+                  if getattr(cl, "assumed", False)]
+        for kind, text in items:
+            t = " ".join(text.split())
+            cls_ = "path-axiom instance" if "use_path(" in t else (
+                "assumed clause" if kind == "assumed-clause" else
+                "definition / well-foundedness of a specification function")
+            out.append({"function": key.split(":", 1)[1], "kind": kind,
+                        "class": cls_, "text": t[:200]})
+    return out
+
+
 def assumed_source_hash(repo, mod, qualname):
     """hash of the function's AST without its docstring (comments and
     formatting do not matter)"""
@@ -567,6 +588,10 @@ def main(argv=None):
         "samples": samples,
         "known_findings_matched": sorted(seenk),
         "undecided_detail": und_msgs[:20],
+        # facts assumed without proof inside verified functions: definitional
+        # unfoldings of specification functions (defs / loop lemmas),
+        # instances of the audited path axioms (use_path), assumed clauses
+        "assumed_facts": assumed_facts(reg, pid),
         "assumptions_used": sorted(eng.used_assumptions |
                                    set(P.get("assumptions", []))),
     }
